@@ -98,6 +98,7 @@ type Frame struct {
 
 type Exec struct {
 	renames         map[string]string // contract name of a local -> its current name (pure renames, by declaration position)
+	nullableResults bool              // set while the results of a contract call are created
 	staticSeen      map[string]bool
 	fvCells         map[string]int // free variables of the function under verification: spec name -> cell
 	prog            *Program
@@ -595,8 +596,14 @@ func (ex *Exec) fresh(s *State, hint string, typ types.Type) Value {
 		if isNodeRef(u.Elem()) {
 			obj := ex.st.Fresh(hint+".obj", SRef)
 			idx := ex.st.Fresh(hint+".idx", SInt)
-			s.assume(Not(Eq(obj, Null)))
-			ex.assumeAllocated(s, obj)
+			if ex.nullableResults {
+				// the result of a callee under contract: nil unless its contract says otherwise
+				al := s.H(ex, "alloc", ArrSort(SRef, SBool))
+				s.assume(Or(Eq(obj, Null), Select(al, obj)))
+			} else {
+				s.assume(Not(Eq(obj, Null)))
+				ex.assumeAllocated(s, obj)
+			}
 			return PtrV{Kind: PSlot, Obj: obj, Idx: idx, Elem: u.Elem()}
 		}
 		if isStruct(u.Elem()) {
